@@ -59,6 +59,7 @@ def parseEvent (ws : List String) : Ev :=
       | ["r", "wt", r] => some (.peek (nat r))
       | ["adv", d] => some (.tick (nat d))
       | ["end"] => some .quiet
+      | ["idle"] => some .settled
       | _ => none
     { actor := a, obs := o }
   | [] => { actor := "", obs := none }
@@ -123,6 +124,7 @@ def cands (actor : String) (o : Obs) : List Label :=
   | .abortRet => []
   | .auxBad => []
   | .quiet => []
+  | .settled => []
 
 def obsMatch (want : Obs) (got : Obs) : Bool :=
   match want, got with
@@ -143,6 +145,7 @@ def acceptLoop (cfg : Cfg) (evs : List Ev) (idx : Nat) (front : List State) (pea
     | none => acceptLoop cfg rest (idx + 1) front peak
     | some .cbEnd => acceptLoop cfg rest (idx + 1) front peak
     | some .quiet => acceptLoop cfg rest (idx + 1) front peak
+    | some .settled => acceptLoop cfg rest (idx + 1) front peak
     | some .abortRet => acceptLoop cfg rest (idx + 1) front peak
     | some .auxBad => acceptLoop cfg rest (idx + 1) front peak
     | some o =>
